@@ -1,6 +1,6 @@
 PROP = dict(
   units=['scq:enq_c1_f1,enq_c2_f1,deq_c1_f1,deq_c2_f1,catchup_f1,finalize', 'ram', 'msq', 'pqt', 'kbq:dtor,push_null,push_k1_s123,push_k2_s123,pop_k2_s123,push_int,pop_int,init', 'kfq', 'vbq', 'nbq', 'nq'],
-  level='proof',
+  level='other',
   strict_obligations=True,
   obligations=['scq.enqueue.finalized_fails', 'scq.enqueue.appends', 'scq.catchup.keeps_finalized', 'scq.finalize.sets',
                'ram.node_dtor.owned_only', 'ram.dtor.each_node_once', 'ram.push.accepts_once', 'ram.push.rollback', 'ram.push.throw_keeps_value', 'ram.pop.hands_over_once', 'ram.push.null_rejected', 'msq.push.owns', 'msq.pop.owns', 'msq.dtor.owns', 'msq.T.lifecycle', 'pqt.*', 'kbq.dtor.each_once', 'kbq.push.reject', 'kbq.push.stores', 'kfq.delete_remaining.each_once', 'kfq.dtor.each_once', 'kfq.dtor.segments_released', 'kfq.retire.once_empty', 'kfq.push.stores',
@@ -8,6 +8,7 @@ PROP = dict(
                'vbq.pop.commit', 'vbq.push.commit',
                'nbq.push.rejected_untouched', 'nbq.pop.destroy_before_release', 'nbq.own.exactly_once', 'nbq.dtor.owns', 'nbq.push.publish_order', 'nbq.inv.preserved',
                'nq.push.rollback', 'nq.pop.destroy_before_release', 'nq.node.delete_once', 'nq.node.no_leak', 'nq.own.exactly_once', 'nq.node_dtor.owned_only', 'nq.dtor.owns', 'nq.push.publish_order'],
+  level_text='Ownership obligations of every queue unit are discharged proofs (shape-complete / unbounded); the property is reported at level other because nikolaev_queue additionally relies on the SCQ finalization obligations (finalized rings with at most 2 burnt tail tickets: runs *_f1 classified bounded, not counted as discharged).',
   explanation='Ownership contracts (ghost owner / alive flags per element and per cell) on every destructor, push/pop construct-destroy pairing and roll-back path of the queues, '
               'from every representation-invariant state, on the extracted text.',
   assumptions=['placement new / ~T / reinterpret_cast<T&> are ghost primitives on an opaque element word', 'shapes as in C04-C06', 'sequential ownership; under interference the ownership obligations rest on the commit obligations (INT mode)'],
